@@ -64,26 +64,44 @@ inductive Effect where
   | bold | faint | underline | blink | crossed
   deriving Repr, DecidableEq
 
-/-- arguments of `ColorFmt` / `ColorBytes`; effects are `None` / `False` / `True` -/
+/-- a value passed for an effect flag or for `no_color`. The code only asks for its truth value
+(`if bold:`, `if not no_color:`), so the kinds below are told apart only by `truthy` -/
+inductive PyVal where
+  | none                            -- `None`
+  | bool (b : Bool)
+  | int (n : Int)
+  | float (num : Int) (den : Nat)   -- the float `num / den`
+  | str (s : List Char)
+  | list (len : Nat)                -- a list with `len` elements
+  deriving Repr, DecidableEq
+
+/-- Python's truth value: `None`, `False`, `0`, `0.0`, `""`, `[]` are false, everything else is true -/
+def truthy : PyVal → Bool
+  | .none => false
+  | .bool b => b
+  | .int n => n ≠ 0
+  | .float num _ => num ≠ 0
+  | .str s => !s.isEmpty
+  | .list len => len ≠ 0
+
+/-- arguments of `ColorFmt` / `ColorBytes` -/
 structure Spec where
   fg : ColorSpec
   bg : ColorSpec
-  bold : Option Bool
-  faint : Option Bool
-  underline : Option Bool
-  blink : Option Bool
-  crossed : Option Bool
-  noColor : Bool
+  bold : PyVal
+  faint : PyVal
+  underline : PyVal
+  blink : PyVal
+  crossed : PyVal
+  noColorArg : PyVal
   deriving Repr, DecidableEq
 
-def Spec.flag (s : Spec) : Effect → Option Bool
+/-- `if no_color` -/
+def Spec.noColor (s : Spec) : Bool := truthy s.noColorArg
+
+def Spec.flag (s : Spec) : Effect → PyVal
   | .bold => s.bold | .faint => s.faint | .underline => s.underline
   | .blink => s.blink | .crossed => s.crossed
-
-/-- Python truth value of `None` / `False` / `True` -/
-def truthy : Option Bool → Bool
-  | some true => true
-  | _ => false
 
 /-- the constants of `_ColorSequences` (generated from the source) -/
 structure SgrCfg where
@@ -420,7 +438,7 @@ inductive CallResult where
   deriving Repr, DecidableEq
 
 /-- the arguments of `ColorFmt(None)` -/
-def plainSpec : Spec := ⟨.none, .none, none, none, none, none, none, false⟩
+def plainSpec : Spec := ⟨.none, .none, .none, .none, .none, .none, .none, .bool false⟩
 
 /-- a `ColorFmt` object is its prefix/suffix pair -/
 abbrev FmtObj := List Char × List Char
